@@ -82,7 +82,9 @@ def evaluate(cont, groups, perm_seed):
         v1 = verdict(lambda: pa.Alignment(uas).check(c))
         v2 = verdict(lambda: pa.Alignment(uas, continuum=c).check())
         v3 = verdict(lambda: pa.Alignment(uas, continuum=c, check_validity=True))
-        for name, v in (("explicit", v1), ("attached", v2), ("constructor", v3)):
+        v4 = verdict(lambda: pa.Alignment(uas, continuum=c, check_validity=True, disorder=0.0))      # every constructor argument
+        v5 = verdict(lambda: pa.Alignment(uas, c, True, 1.25))
+        for name, v in (("explicit", v1), ("attached", v2), ("constructor", v3), ("constructor+disorder=0", v4), ("constructor+disorder", v5)):
             if v != expect:
                 sig = f"check[{name}]:" + ("accepts-invalid" if v == "ok" else ("rejects-valid" if expect == "ok" else f"wrong-error:{v}"))
                 raise Violation(sig, f"{lab}: verdict {v}, expected {expect}; counts {counts} groups {groups}")
@@ -90,7 +92,8 @@ def evaluate(cont, groups, perm_seed):
         s1 = verdict(lambda: SoftAlignment(uas).check(c))
         s2 = verdict(lambda: SoftAlignment(uas, continuum=c).check())
         s3 = verdict(lambda: SoftAlignment(uas, continuum=c, check_validity=True))
-        for name, v in (("explicit", s1), ("attached", s2), ("constructor", s3)):
+        s4 = verdict(lambda: SoftAlignment(uas, continuum=c, check_validity=True, disorder=0.0))
+        for name, v in (("explicit", s1), ("attached", s2), ("constructor", s3), ("constructor+disorder=0", s4)):
             if foreign:
                 if not covered and v == "ok":
                     raise Violation(f"soft-check[{name}]:accepts-invalid", f"{lab}: counts {counts} groups {groups}")
